@@ -19,6 +19,7 @@ inductive Err where
   | resetPosition
   | unknownPreset (name : Name)
   | remote
+  | badExtends
   | outOfFuel
   deriving DecidableEq, Repr
 
@@ -37,6 +38,17 @@ def extendsOf : Value → Option (List Char)
     | some v => strOf v
     | none => none
   | _ => none
+
+def isStr : Value → Bool
+  | .str _ => true
+  | _ => false
+
+/-- an `extends` / `extends_sha256` key whose value is not a string (rejected, not dropped) -/
+def extendsBad : Value → Bool
+  | .tbl fs =>
+    (match fs.get extendsKey with | some v => !isStr v | none => false) ||
+    (match fs.get extendsShaKey with | some v => !isStr v | none => false)
+  | _ => false
 
 def removeExtends : Value → Value
   | .tbl fs => .tbl ((fs.remove extendsKey).remove extendsShaKey)
@@ -67,6 +79,7 @@ def resolve (fs : List (Name × Value)) (presets : List (Name × Value)) :
     | some v =>
       if depth > Generated.maxExtendsDepth then .error (.tooDeep depth visited)
       else if visited.contains name then .error (.circular (visited ++ [name]))
+      else if extendsBad v then .error .badExtends
       else
         match extendsOf v with
         | none => wrapFinish v (visited ++ [name])
